@@ -12,6 +12,7 @@ import (
 	"go/parser"
 	"go/printer"
 	"go/token"
+	"path/filepath"
 	"regexp"
 	"strconv"
 	"strings"
@@ -28,6 +29,7 @@ type goFile struct {
 	funcs   map[string]*ast.FuncDecl
 	consts  map[string]string   // const name -> literal text
 	whichOf map[string][]string // X_Which -> constant names in source order
+	statics map[string][]byte   // var x_<fileid> = []byte{...}
 	pkg     string
 }
 
@@ -38,7 +40,7 @@ func parseGo(path string) (*goFile, error) {
 		return nil, err
 	}
 	g := &goFile{fset: fset, file: f, typeIDs: map[uint64]string{}, methods: map[string]map[string]*ast.FuncDecl{},
-		funcs: map[string]*ast.FuncDecl{}, consts: map[string]string{}, whichOf: map[string][]string{}, pkg: f.Name.Name}
+		funcs: map[string]*ast.FuncDecl{}, consts: map[string]string{}, statics: map[string][]byte{}, whichOf: map[string][]string{}, pkg: f.Name.Name}
 	for _, d := range f.Decls {
 		switch d := d.(type) {
 		case *ast.FuncDecl:
@@ -61,6 +63,32 @@ func parseGo(path string) (*goFile, error) {
 			}
 			g.methods[id.Name][d.Name.Name] = d
 		case *ast.GenDecl:
+			if d.Tok == token.VAR {
+				for _, sp := range d.Specs {
+					vs := sp.(*ast.ValueSpec)
+					if len(vs.Names) != 1 || len(vs.Values) != 1 || !strings.HasPrefix(vs.Names[0].Name, "x_") {
+						continue
+					}
+					cl, ok := vs.Values[0].(*ast.CompositeLit)
+					if !ok {
+						continue
+					}
+					bs := make([]byte, 0, len(cl.Elts))
+					for _, e := range cl.Elts {
+						lit, ok := e.(*ast.BasicLit)
+						if !ok {
+							return nil, fmt.Errorf("static data %s: element is not a literal", vs.Names[0].Name)
+						}
+						v, err := strconv.ParseUint(lit.Value, 0, 8)
+						if err != nil {
+							return nil, fmt.Errorf("static data %s: %v", vs.Names[0].Name, err)
+						}
+						bs = append(bs, byte(v))
+					}
+					g.statics[vs.Names[0].Name] = bs
+				}
+				continue
+			}
 			if d.Tok != token.CONST {
 				continue
 			}
@@ -557,4 +585,269 @@ func (g *goFile) nodeIR(n lay.NodeRec) (string, error) {
 		cs = append(cs, pnum(g.consts[c]))
 	}
 	return fmt.Sprintf("mkNI %s %s %s %s %s [%s]", tid, nw, nr, nl, which, strings.Join(cs, "; ")), nil
+}
+
+
+// ---------------------------------------------------------------- qualified names
+
+// resolver maps an import path to the parsed emitted (or committed) package.
+type resolver struct {
+	byImport map[string]*goFile
+	repo     string
+	cache    map[string]*goFile
+}
+
+const repoImport = "capnproto.org/go/capnp/v3"
+
+// pkgAt returns the X_TypeID tables of the package at an import path: an emitted file of the
+// same request, or a committed generated package of the repository.
+func (r *resolver) pkgAt(path string) *goFile {
+	if g, ok := r.byImport[path]; ok {
+		return g
+	}
+	if g, ok := r.cache[path]; ok {
+		return g
+	}
+	var g *goFile
+	if strings.HasPrefix(path, repoImport) {
+		files, _ := filepath.Glob(filepath.Join(r.repo, strings.TrimPrefix(path, repoImport), "*.capnp.go"))
+		for _, f := range files {
+			pg, err := parseGo(f)
+			if err != nil {
+				continue
+			}
+			if g == nil {
+				g = pg
+			} else {
+				for k, v := range pg.typeIDs {
+					g.typeIDs[k] = v
+				}
+			}
+		}
+	}
+	r.cache[path] = g
+	return g
+}
+
+func (g *goFile) importPath(qual string) (string, bool) {
+	for _, im := range g.file.Imports {
+		p := strings.Trim(im.Path.Value, "\"")
+		name := ""
+		if im.Name != nil {
+			name = im.Name.Name
+		} else if i := strings.LastIndex(p, "/"); i >= 0 {
+			name = p[i+1:]
+		} else {
+			name = p
+		}
+		if name == qual {
+			return p, true
+		}
+	}
+	return "", false
+}
+
+// resolve maps a (possibly qualified) Go name of a generated type / constructor to the node id
+// of its X_TypeID constant. 0: the name does not resolve (no such import / no such type);
+// ok=false: the package is outside the corpus and the repository (nothing to compare with).
+func (g *goFile) resolve(expr string, r *resolver) (uint64, bool) {
+	qual, name := "", expr
+	if i := strings.Index(expr, "."); i >= 0 {
+		qual, name = expr[:i], expr[i+1:]
+	}
+	name = strings.TrimSuffix(strings.TrimSuffix(name, "_Future"), "_List")
+	target := g
+	if qual != "" {
+		p, ok := g.importPath(qual)
+		if !ok {
+			return 0, true // qualifier that is not imported: does not compile, resolves to nothing
+		}
+		target = r.pkgAt(p)
+		if target == nil {
+			// an emitted package of this request must exist; anything else is outside the corpus
+			return 0, strings.HasPrefix(p, "c15gen/")
+		}
+	}
+	for id, n := range target.typeIDs {
+		if n == name {
+			return id, true
+		}
+	}
+	return 0, true
+}
+
+func coqRef(want uint64, got []uint64) string {
+	var gs []string
+	for _, x := range got {
+		gs = append(gs, strconv.FormatUint(x, 10))
+	}
+	return fmt.Sprintf("(%d, [%s])", want, strings.Join(gs, "; "))
+}
+
+// fieldTypeRefs: the generated type names a struct / list / enum / interface field's accessors use.
+func (g *goFile) fieldTypeRefs(f lay.FieldRec, r *resolver) (string, error) {
+	ms := g.methods[f.Type]
+	var exprs []string
+	if d := ms[f.Name]; d != nil && d.Type.Results != nil && len(d.Type.Results.List) > 0 {
+		exprs = append(exprs, g.typeText(d.Type.Results.List[0].Type))
+	}
+	if d := ms["Set"+f.Name]; d != nil && d.Type.Params != nil && len(d.Type.Params.List) == 1 {
+		exprs = append(exprs, g.typeText(d.Type.Params.List[0].Type))
+	}
+	if d := ms["New"+f.Name]; d != nil && (f.Kind == "struct" || f.Kind == "list") {
+		if d.Type.Results != nil && len(d.Type.Results.List) > 0 {
+			exprs = append(exprs, g.typeText(d.Type.Results.List[0].Type))
+		}
+		found := false
+		for _, st := range g.stmts(d) {
+			if m := rx(`^(?:ss|l),err:=(` + qident + `)\(s\.Struct\.Segment\(\)`).FindStringSubmatch(st); m != nil {
+				q := m[1]
+				if i := strings.LastIndex(q, "."); i >= 0 {
+					q = q[:i+1] + strings.TrimPrefix(q[i+1:], "New")
+				} else {
+					q = strings.TrimPrefix(q, "New")
+				}
+				exprs = append(exprs, q)
+				found = true
+			}
+		}
+		if !found {
+			return "", fnErr{f.Type + ".New" + f.Name, "constructor call not found"}
+		}
+	}
+	if d := g.methods[f.Type+"_Future"][f.Name]; d != nil && (f.Kind == "struct" || f.Kind == "iface") &&
+		d.Type.Results != nil && len(d.Type.Results.List) == 1 {
+		exprs = append(exprs, g.typeText(d.Type.Results.List[0].Type))
+	}
+	var got []uint64
+	for _, e := range exprs {
+		id, ok := g.resolve(e, r)
+		if !ok {
+			return "", nil // package outside the corpus
+		}
+		got = append(got, id)
+	}
+	if len(got) == 0 {
+		return "", fnErr{f.Type + "." + f.Name, "no accessor names a generated type"}
+	}
+	return coqRef(f.TypeID, got), nil
+}
+
+// ifaceTypeRefs: parameter and result struct types in the client methods' signatures.
+func (g *goFile) ifaceTypeRefs(ifc lay.IfaceRec, r *resolver) ([]string, error) {
+	var out []string
+	for _, m := range ifc.Methods {
+		d := g.methods[ifc.Type][m.Name]
+		if d == nil {
+			return nil, fnErr{ifc.Type + "." + m.Name, "client method not emitted"}
+		}
+		bad := fnErr{ifc.Type + "." + m.Name, "unrecognised client method signature"}
+		if d.Type.Params == nil || len(d.Type.Params.List) != 2 || d.Type.Results == nil || len(d.Type.Results.List) != 2 {
+			return nil, bad
+		}
+		ft, ok := d.Type.Params.List[1].Type.(*ast.FuncType)
+		if !ok || ft.Params == nil || len(ft.Params.List) != 1 {
+			return nil, bad
+		}
+		pid, ok1 := g.resolve(g.typeText(ft.Params.List[0].Type), r)
+		rid, ok2 := g.resolve(g.typeText(d.Type.Results.List[0].Type), r)
+		if ok1 {
+			out = append(out, coqRef(m.ParamID, []uint64{pid}))
+		}
+		if ok2 {
+			out = append(out, coqRef(m.ResultID, []uint64{rid}))
+		}
+	}
+	return out, nil
+}
+
+
+// ---------------------------------------------------------------- pointer defaults
+
+var reStaticRef = regexp.MustCompile(`^(x_[0-9a-f]+)\[([0-9]+):([0-9]+)\]$`)
+
+// staticBytes evaluates "nil" or "x_<id>[a:b]" against the emitted static data variable.
+func (g *goFile) staticBytes(expr string) ([]byte, error) {
+	if expr == "nil" {
+		return nil, nil
+	}
+	m := reStaticRef.FindStringSubmatch(expr)
+	if m == nil {
+		return nil, fmt.Errorf("default %q is neither nil nor a slice of the static data", expr)
+	}
+	data, ok := g.statics[m[1]]
+	if !ok {
+		return nil, fmt.Errorf("static data variable %s not emitted", m[1])
+	}
+	a, _ := strconv.Atoi(m[2])
+	b, _ := strconv.Atoi(m[3])
+	if a > b || b > len(data) {
+		return nil, fmt.Errorf("%s out of range (len %d)", expr, len(data))
+	}
+	return data[a:b], nil
+}
+
+func coqBytes(b []byte) string {
+	xs := make([]string, len(b))
+	for i, x := range b {
+		xs[i] = strconv.Itoa(int(x))
+	}
+	return "[" + strings.Join(xs, "; ") + "]"
+}
+
+// defRefs: for a struct / list / anyPointer / interface field, (kind, (schema slot, schema default
+// bytes), (emitted slot, emitted default bytes)) of
+//   kind 0: the pipelined accessor X_Future.F()  = p.Future.Field(slot, default)
+//   kind 1: the getter's StructDefault / ListDefault / Default argument
+// anyPointer and interface promise accessors never carry a default (templates pass nil).
+func (g *goFile) defRefs(f lay.FieldRec) ([]string, error) {
+	var out []string
+	emit := func(kind int, want []byte, slot string, got []byte) {
+		out = append(out, fmt.Sprintf("(%d, ((%d, %s), (%s, %s)))", kind, f.Off, coqBytes(want), slot, coqBytes(got)))
+	}
+	if d := g.methods[f.Type+"_Future"][f.Name]; d != nil && (f.Kind == "struct" || f.Kind == "any" || f.Kind == "iface") {
+		fn := f.Type + "_Future." + f.Name
+		st := g.stmts(d)
+		rty := ""
+		if d.Type.Results != nil && len(d.Type.Results.List) == 1 {
+			rty = g.typeText(d.Type.Results.List[0].Type)
+		}
+		var m []string
+		if len(st) == 1 {
+			switch f.Kind {
+			case "struct":
+				m = rx(`^return` + regexp.QuoteMeta(rty) + `\{Future:p\.Future\.Field\(` + num + `,(nil|` + reStatic + `)\)\}$`).FindStringSubmatch(st[0])
+			case "any":
+				if strings.HasSuffix(rty, ".Future") && strings.HasPrefix(rty, "*") {
+					m = rx(`^returnp\.Future\.Field\(` + num + `,(nil)\)$`).FindStringSubmatch(st[0])
+				}
+			case "iface":
+				m = rx(`^return` + regexp.QuoteMeta(rty) + `\{Client:p\.Future\.Field\(` + num + `,(nil)\)\.Client\(\)\}$`).FindStringSubmatch(st[0])
+			}
+		}
+		if m == nil {
+			return nil, fnErr{fn, "unrecognised promise accessor: " + strings.Join(st, " ; ")}
+		}
+		got, err := g.staticBytes(m[2])
+		if err != nil {
+			return nil, fnErr{fn, err.Error()}
+		}
+		want := f.DefBytes
+		if f.Kind != "struct" {
+			want = nil
+		}
+		emit(0, want, pnum(m[1]), got)
+	}
+	if d := g.methods[f.Type][f.Name]; d != nil && len(f.DefBytes) > 0 && (f.Kind == "struct" || f.Kind == "list" || f.Kind == "any") {
+		for _, st := range g.stmts(d) {
+			if m := rx(`p\.(?:StructDefault|ListDefault|Default)\((` + reStatic + `)\)`).FindStringSubmatch(st); m != nil {
+				got, err := g.staticBytes(m[1])
+				if err != nil {
+					return nil, fnErr{f.Type + "." + f.Name, err.Error()}
+				}
+				emit(1, f.DefBytes, strconv.FormatUint(uint64(f.Off), 10), got)
+			}
+		}
+	}
+	return out, nil
 }
